@@ -95,8 +95,9 @@ Definition modes_wf (modes : list (list Z)) : bool :=
   negb (Nat.eqb (length modes) 0) &&
   forallb (mode_wf (Z.of_nat (length modes))) modes.
 
-(* no transition of any state re-enters state 0 (the run-time equates
-   "state 0" with "at a token boundary") and state 0 carries no action *)
+(* no transition of any state re-enters state 0: the run-time equates
+   "state 0" with "at a token boundary, nothing consumed yet" (it skips the
+   actions there and may report EOF there) *)
 Definition mode_progress_ok (m : list Z) : bool :=
   let n := mode_nstates m in
   forallb (fun s => match decode_row m (Z.of_nat s) with
@@ -104,7 +105,7 @@ Definition mode_progress_ok (m : list Z) : bool :=
                     | None => false
                     end) (seq 0 (Z.to_nat n)) &&
   match decode_row m 0 with
-  | Some v => match v_acts v with [] => negb (v_flag v) | _ => false end
+  | Some v => negb (v_flag v)
   | None => false
   end.
 
@@ -136,6 +137,7 @@ Record gsm := {
   g_token : Z;
   g_state : S;
   g_fresh : bool;              (* nothing consumed since the last boundary *)
+  g_accum : bool;              (* text of an action-less fragment is pending *)
   g_mode : nat;
   g_stack : list nat;
 }.
@@ -153,6 +155,7 @@ Inductive gares :=
 
 Definition at_start (l : gsm) (code : Z) (tok : Z) : gsm :=
   {| g_token := tok; g_state := start (g_mode l); g_fresh := true;
+     g_accum := (code =? lexTryAgain);
      g_mode := g_mode l; g_stack := g_stack l |}.
 
 Fixpoint g_actions (acts : list (Z * Z)) (l : gsm) : gares :=
@@ -162,11 +165,13 @@ Fixpoint g_actions (acts : list (Z * Z)) (l : gsm) : gares :=
     if ty =? 1 then
       if (param <? 0) || (Z.of_nat nmodes <=? param) then GCrash
       else g_actions rest {| g_token := g_token l; g_state := g_state l; g_fresh := g_fresh l;
+                             g_accum := g_accum l;
                              g_mode := Z.to_nat param; g_stack := g_mode l :: g_stack l |}
     else if ty =? 2 then
       match g_stack l with
       | [] => GReturn lexError l
       | m :: st => g_actions rest {| g_token := g_token l; g_state := g_state l; g_fresh := g_fresh l;
+                                     g_accum := g_accum l;
                                      g_mode := m; g_stack := st |}
       end
     else if ty =? 3 then GReturn lexAccept (at_start l lexAccept param)
@@ -182,22 +187,26 @@ Definition g_push_rune (l : gsm) (r : Z) : option (Z * gsm) :=
     match (if v_flag v then None else lookup (v_trans v) r) with
     | Some s' =>
       Some (lexConsume, {| g_token := g_token l; g_state := s'; g_fresh := false;
+                           g_accum := g_accum l;
                            g_mode := g_mode l; g_stack := g_stack l |})
     | None =>
-      match g_actions (v_acts v) l with
+      (* at a token boundary an empty match is not a token: the actions are skipped *)
+      match (if g_fresh l then GFall l else g_actions (v_acts v) l) with
       | GCrash => None
       | GReturn code l' => Some (code, l')
       | GFall l' =>
-        if g_fresh l' && (r =? -1) then Some (lexEOF, l') else Some (lexError, l')
+        if g_fresh l' && (r =? -1) && negb (g_accum l')
+        then Some (lexEOF, l') else Some (lexError, l')
       end
     end
   end.
 
 Definition g_reset (l : gsm) : gsm :=
-  {| g_token := g_token l; g_state := start O; g_fresh := true; g_mode := O; g_stack := g_stack l |}.
+  {| g_token := g_token l; g_state := start O; g_fresh := true; g_accum := false;
+     g_mode := O; g_stack := g_stack l |}.
 
 Definition g_init : gsm :=
-  {| g_token := 0; g_state := start O; g_fresh := true; g_mode := O; g_stack := [] |}.
+  {| g_token := 0; g_state := start O; g_fresh := true; g_accum := false; g_mode := O; g_stack := [] |}.
 
 (* the reference driver over a view automaton *)
 Definition g_lex (fuel : nat) (inp : list (Z * Z)) : lres :=
@@ -205,7 +214,7 @@ Definition g_lex (fuel : nat) (inp : list (Z * Z)) : lres :=
 
 End Generic.
 
-Arguments g_token {S}. Arguments g_state {S}. Arguments g_fresh {S}.
+Arguments g_token {S}. Arguments g_state {S}. Arguments g_fresh {S}. Arguments g_accum {S}.
 Arguments g_mode {S}. Arguments g_stack {S}.
 
 (* the view automaton of the emitted tables *)
